@@ -5,6 +5,7 @@ from .. import sdr_common
 from ..lib import lean
 from ..lib import rng as rnglib
 from ..translate import sdr as sdr_t
+from ..translate import sdrexpr
 
 ID = 'C16'
 TARGETS = ['PyIpmi.Props.C16', 'drv_c16']
@@ -55,6 +56,10 @@ _tab = None
 def translate(ctx):
     global _tab
     _tab = sdr_t.generate()
+    # every bit expression of the parser, re-translated from the AST (Gen/SdrExpr.lean; theorems gen_*)
+    names = sdrexpr.generate('C16')
+    ctx.extra['generated_expressions'] = names
+    ctx.extra['generated_expression_count'] = sum(len(v) for v in names.values())
 
 
 # ---------------------------------------------------------------------------------------------
